@@ -66,7 +66,7 @@ WINDOWS = [
 
 
 def gen_cases(tier: str, verif_seed: int, runs: int | None = None) -> list[dict]:
-    n = runs if runs is not None else (16 if tier == "quick" else 64)
+    n = runs if runs is not None else (16 if tier == "quick" else 640)
     cases = []
     for i in range(n):
         prng = Prng(mix(verif_seed, PROP, i))
@@ -79,7 +79,7 @@ def gen_cases(tier: str, verif_seed: int, runs: int | None = None) -> list[dict]
                 has_w=prng.chance(2, 3),
                 has_z=prng.chance(2, 3),
                 nattr=prng.randint(1, 40),
-                max_examples=40 if tier == "quick" else 1500,
+                max_examples=40 if tier == "quick" else 80,
                 steps=8,
             )
         )
